@@ -185,6 +185,31 @@ def r_same_result(repo, rep, R='R12.3'):
                               'the rule is recovered from (node category, left child category, right child category) of this node',
                               'guess_combinator_by_triplet is asked about (%s) for node (%s, %s, %s)'
                               % (', '.join(show(x)[:40] for x in a[1:]), show(b['cat'])[:40], show(b['left'])[:40], show(b['right'])[:40]))
+                elif X[0] == 'name' and X[1] in [a_.arg for a_ in fn.args.args] and isinstance(getattr(fn, '_parent', None), ast.Module):
+                    # the rule result is handed to a shared node builder: judged at every routine that calls it, with the
+                    # builder read in place
+                    n_callers = 0
+                    for c_ in ast.walk(mod.tree):
+                        if isinstance(c_, ast.Call) and isinstance(c_.func, ast.Name) and c_.func.id == fn.name:
+                            caller = enclosing_function(c_)
+                            if caller is None or caller is fn:
+                                continue
+                            wc = '%s:%s %s' % (mod.rel, c_.lineno, qualname_of(caller))
+                            for st2, t2 in call_terms(caller, node):
+                                try:
+                                    b2 = bind_args(t2, mk)
+                                except AnalysisError:
+                                    continue
+                                o2 = b2['op_string']
+                                X2 = o2[1] if o2[0] == 'attr' and o2[2] == 'op_string' else None
+                                n_callers += 1
+                                okr = X2 is not None and X2[0] == 'call' and X2[1] == N('guess_combinator_by_triplet') and len(X2[2]) == 4 and \
+                                    X2[2][1] == b2['cat'] and X2[2][2] == A(b2['left'], 'cat') and X2[2][3] == A(b2['right'], 'cat')
+                                rep.check(okr, R, wc, '%s:%s:rule-through-%s' % (mod.rel, qualname_of(caller), fn.name),
+                                          'the rule handed to %s is recovered from (node category, left child category, right child category) of that node' % fn.name,
+                                          '%s hands %s to %s: not the rule recovered for this very node' % (qualname_of(caller), show(X2 or o2)[:60], fn.name))
+                    if not n_callers:
+                        rep.violation(R, w, key + ':recovery', 'the rule result %s is not recovered with guess_combinator_by_triplet' % show(X)[:80])
                 else:
                     rep.violation(R, w, key + ':recovery', 'the rule result %s is not recovered with guess_combinator_by_triplet' % show(X)[:80])
             elif ops[0] in ('const',):
